@@ -50,6 +50,12 @@ def run(ck):
     from ..report import RuleView
     from . import c14
     c14.join_score(RuleView(ck, {"C14.2": "C01.9"}))
+    from .c04 import scorer_total as _st01
+    _st01(ck, "C01.18")
+    ck.clause("C01.17", "a record is not altered after it was built (as C02.11): the plotters run inside the worker on the row that is "
+                        "written later - a segment list re-ordered in place lists the pairs out of reference order")
+    from .c02 import records_frozen as _rf01
+    _rf01(ck, "C01.17")
     ck.clause("C01.16", "a record names the maps its labels belong to: query / reference ids and lengths reach AlignmentResultRow.create "
                         "in the parameters of their own role at every call site (as C02.3's role lint) - a reordered signature with one "
                         "caller left behind exchanges them silently (all four are ints)")
